@@ -54,8 +54,13 @@ func (g gcase) key() string {
 //	dup-def    task VarArg is defined twice
 //	fail       the first command of task VarArg exits 3
 //	files      odd tasks depend on the file dep.txt (so repeated runs skip them)
+//	var-shadow a variable with the name of task VarArg is defined first (an identifier in a
+//	           dependency list still names the task)
 func (g gcase) text(real bool, logPath string) string {
 	var b strings.Builder
+	if g.Variant == "var-shadow" {
+		fmt.Fprintf(&b, "%s := \"dep.txt\"\n\n", c03Names[g.VarArg])
+	}
 	for i := 0; i < g.N; i++ {
 		var deps []string
 		for _, j := range g.deps(i) {
@@ -372,7 +377,7 @@ func c03Worker(c *core.Ctx) {
 				c03Case(c, res, wl, root, b.ID, &idx, gc, reps)
 			}
 			// one variant of each kind with one seeded request
-			for _, variant := range []string{"undef-dep", "undef-req", "dup-def", "fail", "files"} {
+			for _, variant := range []string{"undef-dep", "undef-req", "dup-def", "fail", "files", "var-shadow"} {
 				if g.N >= 3 && !r.Chance(35) {
 					continue // keep the cost of the big enumerations bounded
 				}
